@@ -148,6 +148,22 @@ def impl_run(case):
                 c = [conv(obj.roll()) for _ in range(4)]
                 if not (a == b == c):
                     out["reproducible"] = False
+            # generators created up front and used one after the other; the default generator used in between
+            g1, g2, g3 = PCG64DXSMRandom(4242), PCG64DXSMRandom(4242), PCG64DXSMRandom(4242)
+            dyce.rng.RNG = g1
+            a = [conv(obj.roll()) for _ in range(5)]
+            dyce.rng.RNG = dyce.rng.DEFAULT_RNG
+            obj.roll(), obj.roll()
+            dyce.rng.RNG = g2
+            b = [conv(obj.roll()) for _ in range(5)]
+            dyce.rng.RNG = g3
+            c = [conv(obj.roll()) for _ in range(3)]
+            dyce.rng.RNG = g1
+            a2 = [conv(obj.roll()) for _ in range(2)]
+            dyce.rng.RNG = g3
+            c += [conv(obj.roll()) for _ in range(2)]
+            if not (a == b == c) or a2 == [] :
+                out["reproducible"] = False
     finally:
         dyce.rng.RNG = old
     if case["kind"] == "p":
